@@ -327,6 +327,7 @@ struct Stats {
     bincode_roundtrips: u64,
     value_roundtrips: u64,
     token_roundtrips: u64,
+    in_place: u64,
     checks: u64,
     c05_streams: u64,
     c05_with_repeats: u64,
@@ -452,6 +453,29 @@ fn run_map<const N: usize, const M: usize>(case: &Case) -> Out {
             other => fail(format!("deserialize (token stream, size hints {}) into capacity {M} failed: {:?}", if hint { "exact" } else { "absent" }, other.map(|r| r.map(|_| ())))),
         }
     }
+    // (2c) Deserialize::deserialize_in_place into a target that already holds other entries:
+    // by serde's contract the result is the same as a fresh deserialize (the default
+    // implementation is `*place = deserialize(..)?`)
+    {
+        let stale = (case.ops.len() % (M + 1)).min(M);
+        let mut place: Map<u8, u32, M> = Map::new();
+        for i in 0..stale {
+            place.insert(200 + i as u8, 7);
+        }
+        let mut de = TokDe::new(&toks, case.ops.len() % 2 == 0);
+        let r = silent(|| <Map<u8, u32, M> as Deserialize>::deserialize_in_place(&mut de, &mut place));
+        out.st.checks += 1;
+        out.st.in_place += 1;
+        match r {
+            Ok(Ok(())) => {
+                let got: BTreeMap<u8, u32> = place.iter().map(|(k, v)| (*k, *v)).collect();
+                if !(place == m) || got != model || place.len() != len {
+                    fail(format!("deserialize_in_place into a map of capacity {M} that held {stale} other entries gives {got:?} (len {}), original {model:?}", place.len()));
+                }
+            }
+            other => fail(format!("deserialize_in_place into capacity {M} (target held {stale} entries) failed: {:?}", other.map(|r| r.map(|_| ())))),
+        }
+    }
     // (3) bincode
     let mut buf = [0u8; 512];
     let cfg = bincode::config::legacy();
@@ -569,6 +593,26 @@ fn run_set<const N: usize, const M: usize>(case: &Case) -> Out {
                 }
             }
             other => fail(format!("deserialize (token stream, size hints {}) into capacity {M} failed: {:?}", if hint { "exact" } else { "absent" }, other.map(|r| r.map(|_| ())))),
+        }
+    }
+    {
+        let stale = (case.ops.len() % (M + 1)).min(M);
+        let mut place: Set<u16, M> = Set::new();
+        for i in 0..stale {
+            place.insert(60000 + i as u16);
+        }
+        let mut de = TokDe::new(&toks, case.ops.len() % 2 == 0);
+        let r = silent(|| <Set<u16, M> as Deserialize>::deserialize_in_place(&mut de, &mut place));
+        out.st.checks += 1;
+        out.st.in_place += 1;
+        match r {
+            Ok(Ok(())) => {
+                let got: std::collections::BTreeSet<u16> = place.iter().copied().collect();
+                if !(place == s) || got != model || place.len() != len {
+                    fail(format!("deserialize_in_place into a set of capacity {M} that held {stale} other elements gives {got:?}, original {model:?}"));
+                }
+            }
+            other => fail(format!("deserialize_in_place into capacity {M} (target held {stale} elements) failed: {:?}", other.map(|r| r.map(|_| ())))),
         }
     }
     let mut buf = [0u8; 512];
@@ -847,6 +891,7 @@ fn main() {
                             s.bincode_roundtrips += out.st.bincode_roundtrips;
                             s.value_roundtrips += out.st.value_roundtrips;
                             s.token_roundtrips += out.st.token_roundtrips;
+                            s.in_place += out.st.in_place;
                             s.c05_streams += out.st.c05_streams;
                             s.c05_with_repeats += out.st.c05_with_repeats;
                             s.c05_skipped_overflow += out.st.c05_skipped_overflow;
@@ -891,6 +936,7 @@ fn main() {
         st.bincode_roundtrips += s.bincode_roundtrips;
         st.value_roundtrips += s.value_roundtrips;
         st.token_roundtrips += s.token_roundtrips;
+        st.in_place += s.in_place;
         st.c05_streams += s.c05_streams;
         st.c05_with_repeats += s.c05_with_repeats;
         st.c05_skipped_overflow += s.c05_skipped_overflow;
@@ -944,6 +990,20 @@ fn main() {
             ])
         })
         .collect();
+    // the same campaign in the other build profile (written by an earlier run of this check)
+    let mut aux: Vec<(String, J)> = Vec::new();
+    if let Ok(a) = std::env::var("VERIF_AUX_EVIDENCE") {
+        let mut others: Vec<(String, J)> = Vec::new();
+        for f in a.split(':').filter(|f| !f.is_empty()) {
+            if let Ok(t) = std::fs::read_to_string(f) {
+                let name = std::path::Path::new(f).file_name().map(|x| x.to_string_lossy().to_string()).unwrap_or_default();
+                others.push((name, J::Raw(t)));
+            }
+        }
+        if !others.is_empty() {
+            aux.push(("other_profiles_same_run".into(), J::O(others)));
+        }
+    }
     let doc = J::O(vec![
         ("property_id".into(), J::S(pname.into())),
         ("tier".into(), J::S(mode.into())),
@@ -960,6 +1020,8 @@ fn main() {
                 ("value_deserializer_roundtrips".into(), J::N(st.value_roundtrips as f64)),
                 ("bincode_roundtrips".into(), J::N(st.bincode_roundtrips as f64)),
                 ("token_stream_roundtrips_with_and_without_size_hints".into(), J::N(st.token_roundtrips as f64)),
+                ("deserialize_in_place_into_nonempty_targets".into(), J::N(st.in_place as f64)),
+                ("profile".into(), J::S(if cfg!(debug_assertions) { "dev (debug assertions on)".into() } else { "release (debug assertions off)".to_string() })),
                 ("cases_with_swap_removal".into(), J::N(st.swap_removals as f64)),
                 ("cases_len_ge2".into(), J::N(st.len_ge2 as f64)),
                 ("cases_target_capacity_differs".into(), J::N(st.diff_cap as f64)),
@@ -969,7 +1031,7 @@ fn main() {
                 ("c05_streams_with_repeated_keys".into(), J::N(st.c05_with_repeats as f64)),
                 ("c05_streams_skipped_more_distinct_keys_than_capacity".into(), J::N(st.c05_skipped_overflow as f64)),
                 ("exhaustive".into(), J::B(false)),
-            ]),
+            ].into_iter().chain(aux).collect()),
         ),
         ("assumptions".into(), J::A(vec![J::S("payloads are u8/u16/u32 (serde without alloc); bincode legacy configuration; target capacity >= len only".into())])),
         ("wall_s".into(), J::N((wall * 1000.0).round() / 1000.0)),
@@ -979,9 +1041,10 @@ fn main() {
     doc.write(&mut s, 0);
     s.push('\n');
     // C05's evidence file is written by the history runner; this part is attached to it
-    let dir = if c05 { std::env::var("VERIF_EVIDENCE_DIR").map(PathBuf::from).unwrap_or_else(|_| verif_dir().join("work")) } else { verif_dir().join("evidence") };
+    let suffix = std::env::var("VERIF_EVIDENCE_SUFFIX").unwrap_or_default();
+    let dir = if c05 || !suffix.is_empty() { std::env::var("VERIF_EVIDENCE_DIR").map(PathBuf::from).unwrap_or_else(|_| verif_dir().join("work")) } else { verif_dir().join("evidence") };
     let _ = std::fs::create_dir_all(&dir);
-    let _ = std::fs::write(dir.join(if c05 { "C05.serde.json" } else { "C20.json" }), s);
+    let _ = std::fs::write(dir.join(if c05 { format!("C05.serde{suffix}.json") } else { format!("C20{suffix}.json") }), s);
     println!("{pname} {mode} (serde feature): {evals} cases, {} distinct non-trivial, {} oracle checks, {wall:.1}s", nt.len(), st.checks);
     if let Some((_, v)) = viol {
         println!("violated: {v}");
